@@ -210,7 +210,7 @@ func checkMonitorTable(c *Ctx) {
 	}
 	c.runTable(tsPre, "monitor.run.prelude", pos, pre)
 	// ---- loop ----
-	paths := (&Walker{P: c.P}).IterRegion(fn, loop)
+	paths := (&Walker{P: c.P, Inline: autoInline(c.P, fn, 12)}).IterRegion(fn, loop)
 	ts := &tableSpec{
 		Rule:   rule,
 		Region: "one iteration of the monitor event loop",
